@@ -1,5 +1,5 @@
 (* C12 - Wheatley moves onto a steady human rhythm.  (Exact-rational instance of the model.) *)
-From Wh Require Import Prelude Permute PN Gens Rhythm RegressP TimingP.
+From Wh Require Import Prelude Permute PN Gens Rhythm RegressP DetP TimingP.
 From Coq Require Import NArith ZArith QArith.
 Local Open Scope Q_scope.
 
@@ -22,3 +22,40 @@ Proof. exact lerp_contracts_iter. Qed.
 (* if the humans are already on Wheatley's line nothing changes, for EVERY inertia *)
 Theorem C12_fixed_point : forall a t, lerp a a t == a.
 Proof. exact lerp_same. Qed.
+
+
+(* The side condition of C12_regression_defined is met by the product's own data: _add_data_point keeps
+   only observations heavier than the rejection threshold; different strikes have different blow times;
+   and positive weights on two different blows make the normal matrix non-singular
+   (det = sum over pairs of w_i w_j (x_i - x_j)^2 > 0).  So from the second strike heard on, the regression is
+   defined, and on collinear data it is the humans' line with no hypothesis left about the matrix. *)
+Theorem C12_kept_data_are_heavy : forall r row place t w r',
+  add_data_point r row place t w = Ok r' -> Forall heavy (r_data r').
+Proof. exact add_data_point_keeps_heavy. Qed.
+Theorem C12_different_strikes_different_blows : forall r row1 place1 row2 place2,
+  0 <= r_gap r -> (place1 < r_stage r)%nat -> (place2 < r_stage r)%nat ->
+  (row1, place1) <> (row2, place2) ->
+  ~ index_to_blow_time r row1 place1 == index_to_blow_time r row2 place2.
+Proof. exact blow_time_injective. Qed.
+Theorem C12_regression_defined_on_two_blows : forall d x1 y1 w1 x2 y2 w2,
+  Forall heavy d -> In (x1, y1, w1) d -> In (x2, y2, w2) d -> ~ x1 == x2 ->
+  exists a b, calculate_regression d = Some (a, b).
+Proof. exact heavy_regression_defined. Qed.
+Theorem C12_collinear_recovery_total : forall a b d x1 y1 w1 x2 y2 w2,
+  Forall wnonneg d -> In (x1, y1, w1) d -> In (x2, y2, w2) d -> 0 < w1 -> 0 < w2 -> ~ x1 == x2 ->
+  Forall (on_line a b) d ->
+  exists a' b', calculate_regression d = Some (a', b') /\ a' == a /\ b' == b.
+Proof. exact collinear_recovery_total. Qed.
+(* the hypotheses are satisfiable: two strikes of weight 1 a blow apart *)
+Example C12_total_nonvacuous :
+  exists a' b', calculate_regression [(0, 10, 1); (1, 103 # 10, 1)] = Some (a', b') /\ a' == 10 /\ b' == 3 # 10.
+Proof.
+  apply (collinear_recovery_total 10 (3 # 10) _ 0 10 1 1 (103 # 10) 1).
+  - constructor; [cbn; discriminate|constructor; [cbn; discriminate|constructor]].
+  - left; reflexivity.
+  - right; left; reflexivity.
+  - reflexivity.
+  - reflexivity.
+  - discriminate.
+  - constructor; [cbn; reflexivity|constructor; [cbn; reflexivity|constructor]].
+Qed.
